@@ -13,7 +13,8 @@ fn dw(s: &str) -> u128 {
 }
 
 fn run(p: &[&str]) -> String {
-    match p[0] {
+    // `g_*` ops: same real functions; the driver evaluates the source-generated Lean definitions for them
+    match p[0].strip_prefix("g_").unwrap_or(p[0]) {
         "recip" => format!("{:x}", d::reciprocal(w(p[2]))),
         "recip2" => format!("{:x}", d::reciprocal_2(dw(p[2]))),
         "d2x1" => {
